@@ -42,6 +42,9 @@ def tail_pattern(type_idx=1, nattr=0):
     # reading backwards: typeIdx, mode, line(4), nullFile, nullFunc, nullCat, nattr, file size(2), func size(2), cat size(1), msg size(2)
     fwd = bytes([type_idx, 0]) + struct.pack("<i", 42) + bytes([1, 1, 1, nattr]) + bytes(2) + bytes(2) + bytes(1) + bytes(2)
     return fwd[::-1]
+# hand-made: optional attributes with unusual counts (negative, huge, signs), specs at the edges
+patterns += [b"%{nope?,-40}tail", b"%{a?-3,-2}xyz%{message}", b"[%{u?1,1}] %{message}", b"%{u?99999,99999}x", b"%{u?,+2}ab", b"%{u?-1}ab", b"%{u? 1, 1}ab",
+             b"%{message:*^10!}", b"%{message:>3!}", b"%{type:^8}|%{category:<<4!}", b"%{if-warning}W%{endif}%{u?,3}%{if-debug}D%{endif}lit", b"%{u?,2}%{v?,2}%{message}"]
 for i, p in enumerate(patterns):
     put("pattern", p + tail_pattern(i % 5))
     put("patdiff", bytes(8))
@@ -49,7 +52,9 @@ sigs = [b"void f()", b"int main(int, char**)", b"void ns::Class::method(const QS
         b"QtLogger::Logger* QtLogger::Logger::instance()", b"bool operator==(const A&, const B&)", b"void (*get())(int)", b"T ns::tmpl<T>::f(U) [with T = int; U = std::map<int, std::pair<int,int> >]",
         b"virtual void A::B<C<D> >::operator()(int) const &&", b"main()::{lambda()#1}::operator()() const", b"static void A::b() noexcept", b"operator new[](unsigned long)",
         b"void __cdecl ns::f(void)", b"int (anonymous namespace)::helper(int)", b"decltype(auto) f() -> int", b"()::", b"(((", b")))", b"a::()::b", b"operator()", b"operator<<", b"std::function<void ()> g(int (*)(char))",
-        b"expression for onClicked", b"qml: anonymous", b"file:///x.qml:12 onCompleted", b"", b"<", b">", b"[", b"]"]
+        b"expression for onClicked", b"qml: anonymous", b"file:///x.qml:12 onCompleted", b"", b"<", b">", b"[", b"]",
+        b"<lambda>", b"<lambda_1>::operator()", b"auto <lambda_1>::operator ()(void) const", b"x <lambda#2>::run", b"void Holder<main()::<lambda()> >::run()",
+        b"static T Registry<Plugin::instance()::Tag>::get(int)", b"<>", b"<<>>::a", b"a<b>::<lambda()>::c<d>", b"operator()::()::x"]
 for s in sigs + lits(files("tests", (".cpp",)), lambda s: "::" in s and "(" in s):
     # func target: integrals from the end: typeIdx, mode, line(4), nullFile, nullFunc, nullCat, nattr, spec size(1)
     put("func", s + (bytes([1, 0]) + struct.pack("<i", 1) + bytes([1, 1, 1, 0, 0]))[::-1])
@@ -64,4 +69,10 @@ for m in [b"error: something", b"start of it", b"the end", b"call 555-1234 now",
 for m in [b"hello", b'quote " backslash \\ slash /', b"line1\nline2\r\n", b"\x00\x01\x1f\x7f", b"\xf0\x9f\x98\x80 astral", b"\xed\xa0\x80 lone", b"x" * 120, b"\xe2\x80\xa8\xe2\x80\xa9"]:
     put("formatters", m + bytes(24))
 put("catdiff", bytes(16))
-print({t: len(os.listdir(os.path.join(V, "corpus", t))) for t in sorted(os.listdir(os.path.join(V, "corpus")))})
+# libFuzzer dictionaries: tokens of the pattern language / of C++ signatures, so that mutations splice meaningful pieces
+open(os.path.join(V, "corpus", "pattern.dict"), "w").write("\n".join('"%s"' % t for t in [
+    "%{", "}", "%{message}", "%{type}", "%{category}", "%{file}", "%{function}", "%{func}", "%{line}", "%{shortfile", "%{time", "%{if-debug}", "%{if-warning}", "%{endif}",
+    "?", "?,", "?1,1", "?,-", "-", ":", ":<", ":>", ":^", "!", "*^10!", "%%", "?-1,-1", "?,-40", "99999", "process}", "boot}"]) + "\n")
+open(os.path.join(V, "corpus", "func.dict"), "w").write("\n".join('"%s"' % t for t in [
+    "<lambda", "<lambda>", "<lambda_1>", ">", "<", "::", "operator()", "operator", "(", ")", "()::", "[with ", "]", " const", "&&", "__cdecl ", "(anonymous namespace)::", "{lambda()#1}", "auto ", "static ", "virtual ", "->", "decltype("]) + "\n")
+print({t: len(os.listdir(os.path.join(V, "corpus", t))) for t in sorted(os.listdir(os.path.join(V, "corpus"))) if os.path.isdir(os.path.join(V, "corpus", t))})
